@@ -11,7 +11,8 @@ import sys
 import numpy as np
 from scipy import sparse
 
-GETTERS = ["array", "volumes", "volumes_approx", "hulls", "hulls_plain", "polytope_nodes", "adjacency", "borders", "distances"]
+GETTERS = ["array", "volumes", "volumes_approx", "hulls", "hulls_plain", "polytope_nodes", "adjacency", "borders", "distances",
+           "adjacency_full", "borders_noopp", "distances_full"]
 DIM = {"ico": 3, "cube3D": 3, "randomS": 3, "zero3D": 3, "cube4D": 4, "randomQ": 4, "fulldiv": 4, "zero4D": 4}
 
 
@@ -54,6 +55,14 @@ def call_getter(g, what):
         return g.get_cell_borders()
     if what == "distances":
         return g.get_center_distances()
+    # the same three getters with their documented options (they only matter for rotation grids: the 2N x 2N double-cover
+    # matrix / the half matrix without the neighbours through the antipode); asked of the SAME object as the default forms
+    if what == "adjacency_full":
+        return g.get_voronoi_adjacency(only_upper=False, include_opposing_neighbours=False)
+    if what == "borders_noopp":
+        return g.get_cell_borders(only_upper=True, include_opposing_neighbours=False)
+    if what == "distances_full":
+        return g.get_center_distances(only_upper=False, include_opposing_neighbours=True)
     raise KeyError(what)
 
 
